@@ -125,6 +125,21 @@ func matchesDigest(ms engine.Matches, withFilename bool, strip string) string {
 	return sb.String()
 }
 
+// panicKey builds the stable site key of a panic detail "message @function":
+// the message with digits masked, cut to 50 characters, plus the full name of
+// the innermost vore function.
+func panicKey(detail string) string {
+	msg, fn := detail, "?"
+	if i := strings.LastIndex(detail, " @"); i >= 0 {
+		msg, fn = detail[:i], detail[i+2:]
+	}
+	msg = digitsRe.ReplaceAllString(msg, "#")
+	if len(msg) > 50 {
+		msg = msg[:50]
+	}
+	return msg + " @" + fn
+}
+
 // doCompile runs Compile under recover and classifies what came back.
 func doCompile(src string) (v *libvore.Vore, out Outcome) {
 	defer func() {
